@@ -100,7 +100,9 @@ def _work(args):
         if mod.nontrivial(c):
             nontriv.append(digest(mod.key(c) if hasattr(mod, 'key') else c))
     # a chunk reports at most a few failure records (large records from many failing cases can stall the pool)
-    return len(chunk), fails[:5], hist, nontriv, (chunk[0] if chunk else None), len(fails)
+    prop_f = [x for x in fails if x[3].get('kind') == 'property']
+    other_f = [x for x in fails if x[3].get('kind') != 'property']
+    return len(chunk), prop_f[:5] + other_f[:3], hist, nontriv, (chunk[0] if chunk else None), len(fails)
 
 
 def chunks(it, size):
@@ -234,15 +236,22 @@ def run_check(prop, tier, seed, jobs, budget_s):
             for n, fl, h, nt, first, nf in results:
                 n_eval += n
                 n_fail_total += nf
-                if len(fails) < 200:
-                    fails.extend(fl)
+                for x in fl:
+                    # keep every property failure (up to a cap) but only a few correspondence-only ones: when model and
+                    # implementation merely disagree the run goes on, searching for an input on which the property fails
+                    if x[3].get('kind') == 'property':
+                        if sum(1 for y in fails if y[3].get('kind') == 'property') < 100:
+                            fails.append(x)
+                    elif sum(1 for y in fails if y[3].get('kind') != 'property') < 20:
+                        fails.append(x)
                 for k, v in h.items():
                     hist[k] = hist.get(k, 0) + v
                 nontriv.update(nt)
                 if first is not None and len(samples) < 6:
                     samples.append(first)
-                if not _STOP.is_set() and (len(fails) >= 200 or time.time() - t0 > budget_s):
-                    timed_out = time.time() - t0 > budget_s and len(fails) < 200
+                n_prop = sum(1 for y in fails if y[3].get('kind') == 'property')
+                if not _STOP.is_set() and (n_prop >= 100 or time.time() - t0 > budget_s):
+                    timed_out = time.time() - t0 > budget_s and not fails
                     _STOP.set()     # workers skip what is left; keep draining, never terminate mid-write
 
         if jobs > 1:
